@@ -282,6 +282,16 @@ def boundary(r, exhaustive=False):
                 yield "mn-grid-wrong-n", opn(m) + keys + opn(n + 1) + b"\xae"
                 yield "mn-grid-nonpushnum-n", opn(m) + keys + b"\x76\xae"
                 yield "mn-grid-noop", opn(m) + keys + opn(n) + b"\x61\xae"
+    # m or n written as a DATA PUSH of the number instead of the opcode OP_m / OP_n (01 02, 02 03 00, 4c 01 02): not a multisig
+    for m in (1, 2, 3, 16):
+        for n in (1, 2, 3, 16):
+            if m > n and n != 1:
+                continue
+            keys = b"".join(b"\x21" + b"\x02" + rb(r, 32) for _ in range(n))
+            for enc in (lambda v: bytes([1, v]), lambda v: bytes([2, v, 0]), lambda v: bytes([0x4c, 1, v])):
+                yield "mn-pushnum-m", enc(m) + keys + opn(n) + b"\xae"
+                yield "mn-pushnum-n", opn(m) + keys + enc(n) + b"\xae"
+                yield "mn-pushnum-both", enc(m) + keys + enc(n) + b"\xae"
     # push forms in every template slot (fork coins: any non-empty push is data)
     h20 = rb(r, 20)
     for pf in push_forms(h20):
@@ -323,7 +333,8 @@ def boundary(r, exhaustive=False):
         for tname, s in canonical_templates(r):
             yield "idiom:%s+%s" % (iname, tname), pre + s
     for tname, s in canonical_templates(r):
-        for suf in (b"\x75", b"\x51", b"\x68", b"\x01\x07\x75", b"\x6a", b"\xac", b"\x87", b"\x88\xac"):
+        for suf in (b"\x75", b"\x51", b"\x68", b"\x01\x07\x75", b"\x6a", b"\xac", b"\x87", b"\x88\xac",
+                    b"\x05ab", b"\x01", b"\x4b" + b"z" * 10, b"\x4c", b"\x4c\x05a", b"\x4d\x01", b"\x4d\x05\x00ab", b"\x4e", b"\x4e\x01\x00\x00"):   # incl. pushes that run past the end
             yield "suffix:" + tname, s + suf
         yield "wrapped:" + tname, b"\x63" + s + b"\x68"
         for tname2, s2 in canonical_templates(r)[:4]:
